@@ -23,6 +23,14 @@ CLAIMED = {
          "Theorems C01_literal / C01_classical / C01_iff / C01_results / C01_spelling / C01_rewritings / C01_dispatch_terminates hold for every formula, graph and node; the classical statement carries the boolean hypothesis compl_ok (every atom met under negation has complementary snippets at the nodes where it is evaluated; counts and the quantifiers always do) and C01_classical_refuted_D2 shows it cannot be dropped for the code as it is (known finding neg-value-atom-nonuniform). All formulas with <= 1 connective and a sample with 2 over 3 atoms (two flavours) x 8 assignments, wide and/or over multi-branch operands x 64 assignments, nested/atLeast/atMost k=0..3 over 50 parent/child configurations, every documented atom kind x 74 value configurations x both polarities, and random formulas are validated by the real library; every verdict must equal the extracted model and, where the hypothesis holds, the classical semantics.",
          "Trusted: Coq kernel; the reading of each Rego snippet as Rules.Fpos/Fneg and of the preamble (measured by the atom stream: OPA hoists calls out of `not`, cross-type ordering, regex subset ^lit$ | ^lit | lit$ | lit); integers only (no floats); uniqueValues, rego/regoModule, exactly, moreThan* are not in the formula language of the model; translator; extraction.",
          "DESIGN.md section 5 C01"),
+ "C03": ("Coq proof over a model of BuildReport / ValidationReportNode / buildContext for arbitrary result lists and configurations (conforms iff no Violation-severity result, severities by list, result key and context variant iff non-empty, header, configuration changes nothing else) and over the model of parseValidationLevel + rule heads (every result traced to a level its validation is listed under) + regenerated facts from report.go / report_nodes.go (conforms expression, loops, guards, date format) + differential run: every distribution of 3 validations over the levels x graphs x 8 configurations x 3 clocks (UTC and zoned) through pkg.ValidateCompiledWithConfiguration against expected results by construction, the extracted model and the executable report specification",
+         "Theorems C03_conforms_iff / C03_severities / C03_warnings_infos_never_change_conforms / C03_result_key_iff / C03_header / C03_config_changes_nothing_else hold for all result lists and configurations; C03_severity_of_level for all profiles, graphs and configurations; C03_model_meets_spec shows the executable specification evaluated on the implementation's reports is met by the model. The harness enumerates 7^3 listings (sample of 70 in the quick tier) x 3 graphs x 8 configurations.",
+         "Trusted: Coq kernel; OPA returning each rule head's set as the corresponding list; encoding/json; time.Format(RFC3339) (measured: dateCreated must parse to the configured instant); translator; extraction. The JSON encoder and key order are below the model.",
+         "DESIGN.md section 5 C03"),
+ "C12": ("Coq proof: the positional @id scheme of defineIdRecursively gives pairwise different ids to all typed nodes of a result tree of any depth and width (injectivity of the key/index token join, by induction over trees), and to the whole document (three fixed nodes + all results of all levels); results are traced to profile and graph + regenerated id formats / document strings (tie) + differential run: reports with several traces, sub-results to depth 7, dangling links, locations are parsed; every typed node's @id must be unique and equal the model's, focus nodes must be graph nodes, names profile validations, messages and traces non-empty",
+         "Theorems C12_ids_unique_in_result / C12_ids_unique / C12_positional_ids_injective hold for every result tree and result lists of any size under the stated shape condition wf_et (keys without underscore that are not numerals, sibling tokens distinct i.e. at most one array-valued field with typed elements), C12_ids_refuted_two_arrays shows the condition is needed; C12_focus_grounded / C12_validate_ids_unique hold for every profile and graph of the model. The harness checks the same predicates on real reports and the id lists against the extracted model.",
+         "Trusted: Coq kernel; the shape of the objects error()/trace() build (measured: the harness derives the typed tree from the real report and checks wf_et on it); non-emptiness of messages and traces is checked on real reports only (no theorem); translator; extraction.",
+         "DESIGN.md section 5 C12"),
 }
 WIP = "check not built yet in this session (work in progress; see DESIGN.md section 9 for the order of work)"
 
